@@ -1,5 +1,6 @@
-"""C16 — 2D-parity codec: product-parity structure (structure and layout part; decoder part not reached)."""
+"""C16 — 2D-parity codec: product-parity structure (structure, layout, and a BOUNDED session contract of the decoder)."""
 from ofvlib.core import Job
+from checks import lbc
 
 LB = "src/lib_common/linear_binary_codes_utils/"
 SP = LB + "binary_matrix/of_matrix_sparse.c"
@@ -8,7 +9,7 @@ MEM = "src/lib_common/of_mem.c"
 
 INFO = {
     "explanation": "fill contract per admissible shape (finite family), factorisation contract for all accepted (k, n-k), control-block layout lemma",
-    "assumptions": ["decoder soundness/completeness and release-at-any-point of the 2D codec go through the generic IT/ML engines and are NOT decided (see DESIGN.md section 6)"],
+    "assumptions": ["decoder soundness/completeness/release of the 2D codec (generic IT/ML engines through the cast): BOUNDED session contract on the shapes 2x2, 2x1 (quick) + 2x3, 3x2, 1x3 (thorough): every (small shapes) or sampled received subset then finish, streaming sequences, callbacks, release with leak check"],
     "trusted": ["of_create_2D_pchk_matrix is verified with of_mod2sparse_allocate and of_fill_2D_pchk_matrix replaced by recording stubs; the fill contract is discharged separately per shape"],
 }
 
@@ -37,4 +38,5 @@ def jobs(tier, seed):
                       repo_sources=[SP, CP, MEM], defines={"OFV_T": 1, "OFV_A": a, "OFV_B": b, "OPENFEC_VERIF_SPARSE_BLOCK": 64},
                       unwind=70, timeout=1500, mem_gb=10, status="proved" if tier != "quick" else "bounded", object_bits=10,
                       bound="shape (%d,%d) is a harness constant; the family of admissible shapes is finite (%d shapes, all run in the thorough tier)" % (a, b, len(shapes()))))
+    js += lbc.p2d_jobs(tier, seed, prop="C16")
     return js
